@@ -163,7 +163,10 @@ func VerifL2Schedule() {
 	verifGoMode(1)
 	n := verifBound("stages", 2)
 	nEdges := n * (n - 1) / 2
-	shape := verifChoose("shape", 1<<nEdges)
+	shape := verifBound("shapeonly", -1)
+	if shape < 0 {
+		shape = verifChoose("shape", 1<<nEdges)
+	}
 	deps := vDeps(n, shape)
 	l := &vL2{}
 	vL = l
@@ -193,6 +196,11 @@ func VerifL2Schedule() {
 	s.OnStageChange(func(stage *scheduler.Stage) {
 		if l.scheduleRet {
 			l.callbacksAfter++
+		}
+		if verifBound("callbackyield", 0) == 1 {
+			// the stage-change callback takes time (prunner's takes the runner-wide mutex): a switch
+			// point (charged to the preemption bound)
+			verifYield()
 		}
 	})
 	for i, st := range l.stages {
